@@ -44,14 +44,21 @@ def size_of(i, bs):
 
 
 # weighted table of file-system ops; index 0 is the simplest
-FS_OPS = (["create"] * 7 + ["delete"] * 4 + ["append"] * 2 + ["truncate"] * 2 + ["rewrite"] * 2 + ["touch"] + ["rename"] * 2 +
-          ["move"] * 2 + ["copy"] + ["mkdir"] + ["rmdir"] + ["create_same"] + ["undelete"] * 3 + ["rewrite_same_sec"] + ["symlink"] + ["hardlink"] + ["file_to_dir"] + ["file_to_link"])
+FS_OPS = (["create"] * 7 + ["delete"] * 4 + ["append"] * 2 + ["truncate"] * 2 + ["rewrite"] * 2 + ["touch"] * 3 + ["rename"] * 2 +
+          ["move"] * 2 + ["copy"] * 3 + ["mkdir"] + ["rmdir"] + ["create_same"] + ["undelete"] * 3 + ["rewrite_same_sec"] + ["symlink"] + ["hardlink"] + ["file_to_dir"] + ["file_to_link"])
 FS_OPS_NOLINK = [o for o in FS_OPS if o not in ("symlink", "hardlink", "file_to_dir", "file_to_link")]
 
 STEP = st.tuples(st.integers(0, 255), st.integers(0, 255), st.integers(0, 255), st.integers(0, 255), st.integers(0, 1 << 20))
 
 
 def decode_fs(t, bs, ndisks, odd=True, links=True):
+    s = _decode_fs(t, bs, ndisks, odd, links)
+    if "fi" in s and (t[4] >> 9) % 3 == 0:
+        s["recent"] = True   # act on the file the previous step produced, whatever disk it is on
+    return s
+
+
+def _decode_fs(t, bs, ndisks, odd=True, links=True):
     o, a, b, c, seed = t
     tab = FS_OPS if links else FS_OPS_NOLINK
     op = tab[o % len(tab)]
@@ -72,12 +79,21 @@ def decode_fs(t, bs, ndisks, odd=True, links=True):
     if op == "undelete":
         return {"op": "undelete", "disk": disk, "fi": b % 3 if b % 2 else 0, "keep_mtime": seed % 3 == 0}
     if op == "touch":
-        return {"op": op, "disk": disk, "fi": b, "ns0": seed % 2 == 0}
+        # named touch_file: "touch" is also a snapraid command and the history runner gives commands precedence
+        return {"op": "touch_file", "disk": disk, "fi": b, "ns0": seed % 2 == 0}
     if op == "delete":
         return {"op": op, "disk": disk, "fi": b}
     if op == "rename":
         return {"op": op, "disk": disk, "fi": b, "name": name_of(c, odd)}
-    if op in ("move", "copy"):
+    if op == "copy":
+        # keep_name: the copy keeps its sub-path on another disk (cp -p to the same place of another disk): the form the tool's
+        # copy detection recognises by name, size and time-stamp
+        d2 = (a // ndisks) % ndisks
+        keep = (seed >> 5) % 2 == 0 and ndisks > 1
+        if keep and d2 == disk:
+            d2 = (disk + 1) % ndisks
+        return {"op": op, "disk": disk, "fi": b, "disk2": d2, "name": name_of(c, odd), "keep_name": keep}
+    if op == "move":
         return {"op": op, "disk": disk, "fi": b, "disk2": (a // ndisks) % ndisks, "name": name_of(c, odd)}
     if op == "mkdir":
         return {"op": op, "disk": disk, "name": name_of(b, odd)}
